@@ -103,3 +103,20 @@ Theorem C06_json_output_is_a_fixed_point :
       json_of_docs fmt_f64 (fst (json_reader (jwrite_docs fmt_f64 js))) = Some (jwrite_docs fmt_f64 js) /\
       json_of_docs fmt_f64 (fst (json_slice (jwrite_docs fmt_f64 js))) = Some (jwrite_docs fmt_f64 js).
 Proof. exact json_output_is_a_fixed_point. Qed.
+
+(* The two statements above that carry a premise on the spelling of floats, for
+   the concrete model of serde_json's serialize_f64 / ryu (theories/JsonFloatModel.v;
+   the premise is discharged in theories/JsonFloatProofs.v). *)
+From XtModel Require Import JsonFloatModel JsonFloatProofs.
+
+Theorem C06_msgpack_json_msgpack_with_floats :
+  forall (vs : list mval) (js : list jval), Forall2 carries vs js -> Forall (writable ryu_ok) js ->
+    jm_output (json_reader (jwrite_docs json_f64 js)) = flat_map enc_val vs /\
+    jm_output (json_slice (jwrite_docs json_f64 js)) = flat_map enc_val vs.
+Proof. exact (msgpack_json_msgpack json_f64 ryu_ok json_f64_reads json_f64_head). Qed.
+
+Theorem C06_json_output_is_a_fixed_point_with_floats :
+  forall js : list jval, Forall (writable ryu_ok) js ->
+    json_of_docs json_f64 (fst (json_reader (jwrite_docs json_f64 js))) = Some (jwrite_docs json_f64 js) /\
+    json_of_docs json_f64 (fst (json_slice (jwrite_docs json_f64 js))) = Some (jwrite_docs json_f64 js).
+Proof. exact (json_output_is_a_fixed_point json_f64 ryu_ok json_f64_reads json_f64_head). Qed.
